@@ -809,7 +809,14 @@ func (w *crashWorld) realKill(st simkit.Step) {
 			allowed[id] = append(allowed[id], exp)
 		}
 	}
-	w.log.Add("realkill plan=%s acked=%d killAfter=%d stop=%v", string(pj), acked, killAfter, stopMode)
+	// (in stream mode the kill is a real signal racing with a real process: how many further stores
+	// the child got acknowledged before it died is not the simulator's choice and not part of the
+	// canonical log; the oracle works with the count observed)
+	ackedLog := "-"
+	if stopMode {
+		ackedLog = strconv.Itoa(acked)
+	}
+	w.log.Add("realkill plan=%s acked=%s killAfter=%d stop=%v", string(pj), ackedLog, killAfter, stopMode)
 	d, err := Open(dir)
 	w.states++
 	if err != nil {
